@@ -622,5 +622,6 @@ def run(tier, seed, only=None, nproc=None):
                      "perm/indep/bounds/empty: P on the open simplex unless stated; closed: P anywhere in [0,1]^(n x K) with unit row sums",
                      "KL non-negativity uses tangent instances log f - log g <= f/g - 1 of the real logarithm",
                      "ot.emd2 uninterpreted, canonical under relabelling of points and exchange of marginals"],
-        bounds={"tier": tier, "jobs": len(js), "shapes": "(2,2),(3,2),(2,3) permutations exhaustive"},
+        bounds={"tier": tier, "jobs": len(js), "shapes": "(2,2),(3,2),(2,3) permutations exhaustive",
+                "long inputs": "67 (thorough: 300) rows from 2 distinct symbolic rows under reversal, two rotations and an interleaving (MMD: thorough only)"},
         stubs=["ot.emd2 -> uninterpreted"])
